@@ -165,7 +165,7 @@ impl<'t, 'd> P<'t, 'd> {
 
     fn stmt(&mut self, i: usize) -> String {
         self.budget = 10 + self.t.below(14) as i32;
-        match self.t.below(32) {
+        match self.t.below(36) {
             0 | 1 | 2 => format!("#let v{i} = {}\n#repr(v{i})\n", self.value(0)),
             3 => format!("#repr({})\n", self.value(0)),
             4 => format!("#for x in {} [#x, ]\n", self.array(0)),
@@ -212,6 +212,55 @@ impl<'t, 'd> P<'t, 'd> {
             28 => format!("#let t{i} = \"a  b\\n\\\"q\\\"\"\n#repr(t{i}) #t{i}.len()\n`r  aw` ```py\nx = 1\n  y\n```\n"),
             29 => format!("/ Term {i}: description\n  continued\n/ Other: x\n\n+ one\n+ two\n  + nested {}\n", self.t.range(0, 9)),
             30 => format!("#let u{i} = -{} + (-{}) - -1\n#repr(u{i}) #repr(not true or false) #repr(1 + 2 * 3 - (4 - 5))\n", self.t.range(1, 9), self.t.range(1, 9)),
+            // imports from the standard library: path items, renames, names bound twice -- which definition
+            // wins depends on the item order (matters with reordering on)
+            32 | 33 => {
+                const ITEMS: &[&str] = &[
+                    "int.signum", "float.signum", "calc.pow", "str.rev", "array.rev", "calc.abs", "calc.max as top", "calc.min",
+                    "calc.min as top", "array.len", "str.len", "calc.max", "calc.floor as abs",
+                ];
+                let n = 2 + self.t.below(3);
+                let mut items: Vec<&str> = vec![];
+                for _ in 0..n {
+                    items.push(self.t.pick(ITEMS));
+                }
+                let (open, close, sep) = match self.t.below(4) {
+                    0 => ("(", ")", ", "),
+                    1 => ("(\n  ", ",\n)", ",\n  "),
+                    _ => ("", "", ", "),
+                };
+                // every bound name is called with arguments that tell the candidates apart
+                let mut uses = String::new();
+                let mut seen: Vec<&str> = vec![];
+                for it in &items {
+                    let name = it.rsplit([' ', '.']).next().unwrap_or(it);
+                    if seen.contains(&name) {
+                        continue;
+                    }
+                    seen.push(name);
+                    uses.push_str(match name {
+                        "signum" => "#repr(signum(2.5)) ",
+                        "rev" => "#repr(rev(\"ab\")) ",
+                        "len" => "#repr(len(\"ab\")) ",
+                        "top" => "#repr(top(1, 2)) ",
+                        "abs" => "#repr(abs(-1.5)) ",
+                        "min" => "#repr(min(1, 2)) ",
+                        "max" => "#repr(max(1, 2)) ",
+                        _ => "#repr(pow(2, 3)) ",
+                    });
+                }
+                format!("#import std: {open}{}{close}\n{uses}\n", items.join(sep))
+            }
+            // references with a supplement: blanks at the inner edges of the supplement are content
+            34 => {
+                let sup = self.t.pick(&["[Chapter ]", "[ Sec ]", "[ §]", "[Part]", "[]", "[ ]", "[a\n  b ]"]);
+                format!("#set heading(numbering: \"1.\")\n= Intro {i} <r{i}>\nSee @r{i}{sup} and @r{i}{}x.\n", self.t.pick(&["[ A ]", "[B ]", ""]))
+            }
+            // strings and raw text whose characters are counted
+            35 => format!(
+                "#let z{i} = \"k=v\nq=r\"\n#z{i}.len() #repr(z{i}.split(\"\\n\")) #`a\n b`.text.len()\n#let y{i} = (\"x\n  y\", {})\n#repr(y{i})\n",
+                self.int(0)
+            ),
             _ => format!("#let q{i} = xs.map(x => x * 2).filter(x => x > {}).len()\n#repr(q{i})\nA #xs.len()th and #d.c.at(0). #(d.a)em #s;x\n", self.t.range(0, 5)),
         }
     }
@@ -237,6 +286,37 @@ pub fn program(t: &mut Tape) -> String {
         s.push_str(&p.stmt(i));
         if p.t.chance(100) {
             s.push('\n');
+        }
+    }
+    // mixed line endings (a file edited on two systems): the first few line breaks, or a tape-chosen
+    // subset, become CRLF / CR -- never those inside strings and raw text, whose value they are
+    if p.t.chance(24) {
+        let nl = p.t.pick(&["\r\n", "\r\n", "\r"]);
+        let first = p.t.range(1, 6);
+        let every = p.t.coin();
+        let root = crate::syn::parse(&s);
+        let flat = crate::syn::flatten(&root);
+        let mut out = String::with_capacity(s.len() + 16);
+        let mut seen = 0usize;
+        for f in flat.iter().filter(|f| f.node.children().len() == 0) {
+            let txt = f.node.text().as_str();
+            if matches!(f.node.kind(), crate::syn::K::Space | crate::syn::K::Parbreak) && txt.contains('\n') {
+                for ch in txt.chars() {
+                    if ch == '\n' {
+                        seen += 1;
+                        if seen <= first || (every && seen % 3 == 0) {
+                            out.push_str(nl);
+                            continue;
+                        }
+                    }
+                    out.push(ch);
+                }
+            } else {
+                out.push_str(txt);
+            }
+        }
+        if crate::syn::wf(&out) {
+            s = out;
         }
     }
     s
